@@ -4,13 +4,14 @@
 //!
 //! `inspwrap tx spec=<u8> ty=<0..4> gas=<hex> price=<hex> tip=<hex|-> basefee=<hex> value=<hex> to=<addr hex|create>
 //!           data=<hex> acl=<0|1> auth=<n> col=<0|1> tr=<0..3> a=<code> b=<code> c=<code> rec=<…|->`
-//!     the transaction is executed FIVE times on the real `Evm`, each time over a fresh copy of the same
+//!     the transaction is executed FIVE times on the real `Evm` (plus three reuse runs, below), each time over a fresh copy of the same
 //!     database: plain (no handler register), `NoOpInspector`, `GasInspector`, `TracerEip3155` (writer = sink;
 //!     `tr` bit0 = with_memory, bit1 = without_summary) and a recording wrapper around `GasInspector` (pure
 //!     delegation) - the last four with `inspector_handle_register`. Compared pairwise with the plain run:
 //!     the `Result<ExecutionResult, EVMError>` (status, reason, gas_used, gas_refunded, output, logs) and the
 //!     returned `EvmState` (every account: info, status flags, every slot original/present/cold), both in a
-//!     canonical sorted text form. reply = `same used=<gas_used> refunded=<gas_refunded|->` (or `same` for
+//!     canonical sorted text form. Then the transaction is run TWICE on one reused `Evm` (plain, GasInspector,
+//!     tracer: inspector state and the register's input stacks survive) and the second results are compared. reply = `same used=<gas_used> refunded=<gas_refunded|->` (or `same` for
 //!     `rec=-`, used when the transaction is rejected) or `differ <which run> <result|state> <excerpt>`.
 //!     `rec=<kind>,<InstructionResult>,<limit>,<remaining>,<refunded>,<eip7702 refund>,<floor gas>,<tx gas limit>,<london>`
 //!     is the first-frame outcome as `call_end`/`create_end` received it at depth 0 (recorded by the generator);
@@ -480,6 +481,13 @@ fn build_db(r: &TxReq) -> CacheDB<EmptyDB> {
     db
 }
 
+fn access_list() -> Vec<AccessListItem> {
+    vec![
+        AccessListItem { address: addr(B), storage_keys: vec![B256::with_last_byte(1), B256::with_last_byte(2)] },
+        AccessListItem { address: addr(A), storage_keys: vec![B256::with_last_byte(1)] },
+    ]
+}
+
 fn fill_env(env: &mut Env, r: &TxReq) {
     env.block.number = U256::from(1000);
     env.block.timestamp = U256::from(1_700_000_000u64);
@@ -503,10 +511,7 @@ fn fill_env(env: &mut Env, r: &TxReq) {
     tx.nonce = None;
     tx.chain_id = None;
     if r.acl {
-        tx.access_list = vec![
-            AccessListItem { address: addr(B), storage_keys: vec![B256::with_last_byte(1), B256::with_last_byte(2)] },
-            AccessListItem { address: addr(A), storage_keys: vec![B256::with_last_byte(1)] },
-        ];
+        tx.access_list = access_list();
     }
     if r.ty == 3 {
         let mut h = B256::with_last_byte(0x42);
@@ -575,6 +580,25 @@ fn canon(res: Result<ResultAndState, String>) -> RunOut {
 
 fn run_plain(r: &TxReq) -> RunOut {
     let mut evm = Evm::builder().with_db(build_db(r)).with_spec_id(r.spec).modify_env(|e| fill_env(e, r)).build();
+    canon(evm.transact().map_err(|e| format!("{:?}", e)))
+}
+
+/// the same transaction twice on ONE `Evm` (nothing is committed in between): the second result
+fn run_plain_twice(r: &TxReq) -> RunOut {
+    let mut evm = Evm::builder().with_db(build_db(r)).with_spec_id(r.spec).modify_env(|e| fill_env(e, r)).build();
+    let _ = evm.transact();
+    canon(evm.transact().map_err(|e| format!("{:?}", e)))
+}
+/// the same with an inspector: its state and the register's input stacks survive the first transaction
+fn run_insp_twice<I: Inspector<CacheDB<EmptyDB>>>(r: &TxReq, insp: I) -> RunOut {
+    let mut evm = Evm::builder()
+        .with_db(build_db(r))
+        .with_external_context(insp)
+        .with_spec_id(r.spec)
+        .modify_env(|e| fill_env(e, r))
+        .append_handler_register(inspector_handle_register)
+        .build();
+    let _ = evm.transact();
     canon(evm.transact().map_err(|e| format!("{:?}", e)))
 }
 
@@ -702,14 +726,7 @@ fn diff(name: &str, plain: &RunOut, other: &RunOut) -> Option<String> {
 /// the `rec=` field: first-frame outcome as seen by the end callback at depth 0 + the numbers the tail needs
 fn rec_of(r: &TxReq, rg: &RecGas) -> String {
     let Some((kind, res, g)) = rg.first else { return "-".into() };
-    let acl: Vec<AccessListItem> = if r.acl {
-        vec![
-            AccessListItem { address: addr(B), storage_keys: vec![B256::with_last_byte(1), B256::with_last_byte(2)] },
-            AccessListItem { address: addr(A), storage_keys: vec![B256::with_last_byte(1)] },
-        ]
-    } else {
-        vec![]
-    };
+    let acl: Vec<AccessListItem> = if r.acl { access_list() } else { vec![] };
     let nauth = if r.ty == 4 { r.auth as u64 } else { 0 };
     let ig = revm::interpreter::gas::calculate_initial_tx_gas(r.spec, &r.data, r.to.is_none(), &acl, nauth);
     // authority 0 (AUTH1) exists and is not empty: one refund of PER_EMPTY_ACCOUNT_COST - PER_AUTH_BASE_COST
@@ -757,6 +774,15 @@ fn exec_tx_req(r: &TxReq, rec: &str) -> (String, TxStats) {
     let stats = TxStats { rg: Some(rg), class };
     for (name, other) in [("noop", &noop), ("gas", &gas), ("tracer", &tracer), ("recgas", &recd)] {
         if let Some(d) = diff(name, &plain, other) {
+            return (d, stats);
+        }
+    }
+    // second transaction on a reused Evm: plain against GasInspector and tracer (state and stacks survive)
+    let plain2 = run_plain_twice(r);
+    let gas2 = run_insp_twice(r, GasInspector::default());
+    let tracer2 = run_insp_twice(r, TracerEip3155::new(Box::new(std::io::sink())));
+    for (name, b) in [("second-gas", &gas2), ("second-tracer", &tracer2)] {
+        if let Some(d) = diff(name, &plain2, b) {
             return (d, stats);
         }
     }
@@ -1098,8 +1124,9 @@ fn gen_tx(rng: &mut Rng, tags: &mut Vec<&'static str>) -> TxReq {
     let b = program(rng, spec, 1, tags);
     let c = program(rng, spec, 2, tags);
     let basefee = if en(spec, SpecId::LONDON) { U256::from(rng.below(3) * 7) } else { U256::ZERO };
-    let price = basefee + U256::from(*rng.pick(&[0u64, 0, 1, 10]));
     let tip = if ty >= 2 { Some(U256::from(rng.below(3))) } else { None };
+    // max fee >= basefee + tip except in 1 of 25 cases
+    let price = basefee + U256::from(*rng.pick(&[0u64, 0, 1, 10])) + if rng.chance(24, 25) { tip.unwrap_or(U256::ZERO) } else { U256::ZERO };
     let (to, data): (Option<Address>, Vec<u8>) = match rng.below(20) {
         0..=11 => {
             let k = rng.below(40) as usize;
@@ -1121,12 +1148,24 @@ fn gen_tx(rng: &mut Rng, tags: &mut Vec<&'static str>) -> TxReq {
             }
         }
     };
-    let value = match rng.below(10) {
-        0..=6 => U256::ZERO,
-        7 | 8 => U256::from(1),
+    let value = match rng.below(30) {
+        0..=19 => U256::ZERO,
+        20..=28 => U256::from(1),
         _ => U256::from(1u128 << 101),
     };
-    let gas = if rng.chance(1, 12) { rng.range(20_990, 80_000) } else { *rng.pick(GAS_LIMITS) };
+    let acl = ty >= 1 && rng.chance(2, 3);
+    let auth = if ty == 4 { rng.range(1, 3) as u8 } else { 0 };
+    // mostly: intrinsic gas (of the real calculation) plus a boundary amount, so that execution starts
+    let gas = if rng.chance(1, 12) {
+        rng.range(20_990, 80_000)
+    } else if rng.chance(1, 8) {
+        *rng.pick(GAS_LIMITS)
+    } else {
+        let al: Vec<AccessListItem> = if acl { access_list() } else { vec![] };
+        let ig = revm::interpreter::gas::calculate_initial_tx_gas(spec, &data, to.is_none(), &al, auth as u64);
+        ig.initial_gas.max(ig.floor_gas)
+            + *rng.pick(&[0u64, 1, 2, 3, 9, 20, 100, 700, 2300, 2600, 5000, 9000, 25000, 32000, 60000, 100000, 300000, 1_000_000, 5_000_000])
+    };
     TxReq {
         spec,
         ty,
@@ -1137,8 +1176,8 @@ fn gen_tx(rng: &mut Rng, tags: &mut Vec<&'static str>) -> TxReq {
         value,
         to,
         data,
-        acl: ty >= 1 && rng.chance(2, 3),
-        auth: if ty == 4 { rng.range(1, 3) as u8 } else { 0 },
+        acl,
+        auth,
         col: to.is_none() && rng.chance(1, 4),
         tr: rng.below(4) as u8,
         a,
